@@ -44,7 +44,29 @@ BConn* Broker::current() {
     return nullptr;
 }
 
-void Broker::on_attempt(sim::Conn&) {}
+// C11 (system half): is some earlier connection attempt still in progress, i.e. not handshake-complete
+// and with an operation of the client pending on it?
+std::string Broker::unfinished_attempt(int except, uint64_t* begun) {
+    for (auto& up : net.conns) {
+        sim::Conn& o = *up;
+        if (o.id == except || o.client_closed) continue;
+        bool pending = (o.connect_op && o.connect_op->pending()) || (o.read_op && o.read_op->pending()) || (o.write_op && o.write_op->pending());
+        if (!pending) continue;
+        BConn* b = bc(o.id);
+        bool handshaken = b && b->connack_sent_idx >= 0 && sent[b->connack_sent_idx].delivered_seq != 0;
+        if (handshaken) continue;
+        if (begun) *begun = o.seq_begin;
+        return "connection attempt " + std::to_string(o.id) + " (begun at seq " + std::to_string(o.seq_begin) + ") still has an operation pending";
+    }
+    return {};
+}
+
+void Broker::on_attempt(sim::Conn& nc) {
+    uint64_t ob = 0;
+    auto e = unfinished_attempt(nc.id, &ob);
+    if (!e.empty())
+        overlaps.push_back({ob, nc.seq_begin, false, "connection attempt " + std::to_string(nc.id) + " started at seq " + std::to_string(nc.seq_begin) + " while " + e});
+}
 
 void Broker::on_established(sim::Conn& nc) {
     if ((int)conns.size() <= nc.id) conns.resize(nc.id + 1);
@@ -153,7 +175,7 @@ bool Broker::apply_pfaults(PfWhen when, BConn& c, Packet& p, ns_t& delay, bool& 
         case PfAct::rst: net.inject_rst(nc, false, "pfault_rst"); killed = true; break;
         case PfAct::rst_lose: net.inject_rst(nc, true, "pfault_rst_lose"); killed = true; break;
         case PfAct::fin:
-            nc.fault_injected = true; w.count("fault.eof");
+            nc.fault_injected = true; nc.transport_fault = true; w.count("fault.eof");
             if (!*nc.close_cause) nc.close_cause = "net_fin";
             net.broker_close(nc, false); c.client_gone = true; c.phase = BConn::closed; killed = true; break;
         case PfAct::blackhole: net.inject_blackhole(nc, "pfault_blackhole"); killed = true; break;
@@ -192,6 +214,13 @@ int Broker::emit(BConn& c, Packet p, ns_t delay, int reply_to, int msg, bool hos
     if (r.chance(knobs.short_form_p)) eo.short_rc = true;
     if (r.chance(knobs.short_form_p)) eo.short_props = true;
     s.raw = raw_override.empty() ? encode(p, eo) : raw_override;
+    if (raw_override.empty() && !hostile && knobs.respect_client_limits && s.raw.size() > c.client_max_packet.value_or(65536) && p.type != PUBLISH) {
+        // a legitimate server drops optional properties rather than exceed the client's Maximum Packet Size
+        if (p.type != CONNACK) p.props.clear();
+        else p.props.erase(std::remove_if(p.props.begin(), p.props.end(), [](const Prop& x) { return x.id == P_USER || x.id == P_REASON_STRING || x.id == P_RESPONSE_INFO || x.id == P_SERVER_REF; }), p.props.end());
+        s.raw = encode(p, eo);
+        w.count("brk.props_dropped_for_client_limit");
+    }
     if ((knobs.hostile && hostile_window && r.chance(knobs.hostile_p)) || hostile_reply) {
         std::string desc;
         auto hr = rng_for(c.conn, "hostile", emit_counter_);
@@ -234,7 +263,7 @@ void Broker::do_emit(int conn, int sidx, int cut) {
     w.trs("brk_emit", packet_str(p) + (s.hostile ? " [HOSTILE " + hex(s.raw, 48) + "]" : ""), conn);
     net.broker_send(*nc, bytes);
     if (cut >= 0) {
-        nc->fault_injected = true;
+        nc->fault_injected = true; nc->transport_fault = true;
         nc->fault_log.push_back("cut_emit " + std::to_string(cut));
         if (!*nc->close_cause) nc->close_cause = "net_fin";
         net.broker_close(*nc, false);
@@ -271,6 +300,7 @@ void Broker::handle_connect(BConn& c, int ridx) {
     if (auto* x = find_prop(p.props, P_AUTH_METHOD)) c.auth_method = x->s1;
     sim::Conn& nc = *net.conn(c.conn);
     auto r = rng_for(c.conn, "hs");
+    if (healed) c.hs = HsMode::ok;
     switch (c.hs) {
     case HsMode::silent:
         w.count("fault.handshake_silent");
@@ -295,7 +325,7 @@ void Broker::handle_connect(BConn& c, int ridx) {
     }
     case HsMode::close_before_connack:
         w.count("fault.handshake_close");
-        nc.fault_injected = true;
+        nc.fault_injected = true; nc.transport_fault = true;
         if (!*nc.close_cause) nc.close_cause = "broker_fin";
         net.broker_close(nc, r.chance(0.5));
         c.client_gone = true; c.phase = BConn::closed;
@@ -329,6 +359,7 @@ void Broker::handle_connect(BConn& c, int ridx) {
 }
 
 void Broker::finish_handshake(BConn& c, int ridx) {
+    if (healed) c.hs = HsMode::ok;
     auto r = rng_for(c.conn, "hs2");
     bool had = session.exists;
     bool lose = false;
@@ -357,7 +388,7 @@ void Broker::finish_handshake(BConn& c, int ridx) {
     int cut = -1;
     if (c.hs == HsMode::truncated_connack) {
         std::string raw = encode(a);
-        cut = (int)r.pick<int>({1, 2, 3, 4, 5, (int)raw.size() - 1});
+        cut = std::min((int)r.pick<int>({1, 2, 3, 4, 5, (int)raw.size() - 1}), (int)raw.size() - 1);   // always a real truncation
         ProtoFault f; f.when = PfWhen::on_emit; f.ptype = CONNACK; f.act = PfAct::cut_emit; f.arg = cut;
         pfaults.push_back(f);
     }
@@ -375,7 +406,8 @@ void Broker::finish_handshake(BConn& c, int ridx) {
 void Broker::send_msg(BConn& c, OutMsg& m, bool dup) {
     Packet p; p.type = PUBLISH; p.qos = m.qos; p.topic = m.topic; p.payload = m.payload; p.props = m.props;
     p.retain = m.retain; p.pid = m.pid; p.dup = dup;
-    if (knobs.respect_client_limits && c.client_max_packet && encode(p).size() > *c.client_max_packet) {
+    // the client under test accepts at most 65536 bytes per packet unless it announced another Maximum Packet Size
+    if (knobs.respect_client_limits && encode(p).size() > c.client_max_packet.value_or(65536)) {
         // MQTT: a server must not send a packet exceeding the client's Maximum Packet Size; it discards it
         m.st = OutMsg::dropped; m.session_lost = true;
         w.count("brk.msg_dropped_too_large");
@@ -459,7 +491,7 @@ void Broker::restart(bool lose_session) {
     for (auto& c : conns) {
         if (!c || c->client_gone) continue;
         sim::Conn* nc = net.conn(c->conn);
-        if (nc && !nc->broker_closed) { nc->fault_injected = true; if (!*nc->close_cause) nc->close_cause = "broker_rst"; net.broker_close(*nc, true); }
+        if (nc && !nc->broker_closed) { nc->fault_injected = true; nc->transport_fault = true; if (!*nc->close_cause) nc->close_cause = "broker_rst"; net.broker_close(*nc, true); }
         c->client_gone = true; c->phase = BConn::closed;
     }
     if (lose_session && session.exists) {
